@@ -127,6 +127,7 @@ var errC10Reader = errors.New("tilereader: tile not available")
 type c10Reader struct {
 	h         int
 	st        tlogStore
+	uni       *c10Uni // a uniform log (util_c10uni.go) instead of st
 	faults    []c10Fault
 	requested []tlog.Tile
 	saveCalls int
@@ -136,8 +137,19 @@ type c10Reader struct {
 
 func (r *c10Reader) Height() int { return r.h }
 
+// trueTile: the true content of tile t, or an error if the log has no such tile.
+func (r *c10Reader) trueTile(t tlog.Tile) ([]byte, error) {
+	if r.uni != nil {
+		if d := r.uni.trueTile(t); d != nil {
+			return d, nil
+		}
+		return nil, errC10Reader
+	}
+	return tlog.ReadTileData(t, r.st)
+}
+
 func (r *c10Reader) serve(t tlog.Tile) ([]byte, error) {
-	data, err := tlog.ReadTileData(t, r.st)
+	data, err := r.trueTile(t)
 	if err != nil {
 		return nil, errC10Reader
 	}
@@ -191,7 +203,7 @@ func (r *c10Reader) serve(t tlog.Tile) ([]byte, error) {
 		case "repl":
 			other := t
 			other.L, other.N = f.A, int64(f.B)
-			data, err = tlog.ReadTileData(other, r.st)
+			data, err = r.trueTile(other)
 			if err != nil {
 				return nil, errC10Reader
 			}
@@ -243,6 +255,18 @@ type c10LogT struct {
 	recs []string
 	st   tlogStore
 	tree tlog.Tree
+	uni  *c10Uni // non-nil: a uniform log of any size (util_c10uni.go); recs and st are not materialised
+}
+
+// hashAt: the true stored hash at index x.
+func (l *c10LogT) hashAt(x int64) (tlog.Hash, bool) {
+	if l.uni != nil {
+		return l.uni.hashAt(x)
+	}
+	if x < 0 || x >= int64(len(l.st)) {
+		return tlog.Hash{}, false
+	}
+	return l.st[x], true
 }
 
 var c10Logs = map[[2]int]*c10LogT{}
@@ -261,7 +285,7 @@ func c10Log(seed, n int) *c10LogT {
 	if err != nil {
 		panic(err)
 	}
-	l := &c10LogT{recs, st, tlog.Tree{N: int64(n), Hash: th}}
+	l := &c10LogT{recs: recs, st: st, tree: tlog.Tree{N: int64(n), Hash: th}}
 	if len(c10Logs) > 5000 {
 		c10Logs = map[[2]int]*c10LogT{}
 	}
@@ -271,7 +295,7 @@ func c10Log(seed, n int) *c10LogT {
 
 // c10Read runs the real tileHashReader against a c10Reader; a panic is a result.
 func c10Read(l *c10LogT, h int, idx []int64, faults []c10Fault) (hs []tlog.Hash, res string, r *c10Reader) {
-	r = &c10Reader{h: h, st: l.st, faults: faults}
+	r = &c10Reader{h: h, st: l.st, uni: l.uni, faults: faults}
 	defer func() {
 		if e := recover(); e != nil {
 			hs, res = nil, "panic"
@@ -360,7 +384,7 @@ func init() {
 		return res + " saved=" + r.savedTok()
 	}
 	register(&Prop{ID: "C10", Gen: genC10, Oracle: oracleC10,
-		Rule: "readhashes: every tree size N <= 40 (thorough 120), tile height h in {1,2,3} (thorough 1..5, plus sampled N < 1500 with h <= 8), every single stored-hash index honest, then sampled (index set, fault) pairs where the fault hits a tile that the honest read requests: flip one bit of one hash, swap / duplicate two hashes, truncate, extend (whole hashes), lengthen / shorten by a number of bytes that is not a multiple of the hash size, replace by the true tile of another coordinate, tile missing; one or two faults; index sets of size 0-4 including out-of-range indexes, N = 0, h = 0; readseq: histories of 2-4 ReadHashes calls through ONE TileHashReader value with per-call faults (honest then a corrupted re-fetch of a tile fetched before, a corrupted read retried, the index lists of TreeHash/ProveTree/ProveRecord, random); tileforindex / newtiles / hashfromtile / readtiledata / tilepath / parsetilepath with valid, mutated, boundary (int64 overflow in N, W = 2^H, leading zeros, signs, data tiles) and random inputs; non-trivial = at least one fault on a tile that is actually read, or a well-formed input / one mutation from one; distinct by op line"})
+		Rule: "readhashes: every tree size N <= 40 (thorough 120), tile height h in {1,2,3} (thorough 1..5, plus sampled N < 1500 with h <= 8), every single stored-hash index honest, the same on trees of N <= 10 (thorough 24) for the boundary heights 29, 30, 31 and three heights drawn from 4..28, then sampled (index set, fault) pairs where the fault hits a tile that the honest read requests: flip one bit of one hash, swap / duplicate two hashes, truncate, extend (whole hashes), lengthen / shorten by a number of bytes that is not a multiple of the hash size, replace by the true tile of another coordinate, tile missing; one or two faults; index sets of size 0-4 including out-of-range indexes, N = 0, h = 0; readuni: reads (honest / one or two faults) on uniform logs (all records equal, nothing materialised) of 2^20 .. 2^62-1 records (mostly above 2^59; 2^k, 2^k +- small, few set bits, random), heights 1..3 (sometimes ..8): single positions on every level, random sets, pairs of positions whose tiles alias when (level, number) is packed or the number is truncated to an s-bit field; readseq: histories of 2-4 ReadHashes calls through ONE TileHashReader value with per-call faults (honest then a corrupted re-fetch of a tile fetched before, a corrupted read retried, the index lists of TreeHash/ProveTree/ProveRecord, random); tileforindex / newtiles / hashfromtile / readtiledata / tilepath / parsetilepath with valid, mutated, boundary (int64 overflow in N, W = 2^H, leading zeros, signs, data tiles) and random inputs; non-trivial = at least one fault on a tile that is actually read, or a well-formed input / one mutation from one; distinct by op line"})
 }
 
 // c10Honest returns the tiles an honest read of idx requests.
@@ -501,6 +525,20 @@ func genC10(g *Gen, n int) {
 			cfgs = append(cfgs, cfg{N, h})
 		}
 	}
+	// the rest of the height domain (input class "every legal tile height", gap r6-C10-a: heights above 5 were only in
+	// tile paths, never in a read): the boundary heights 29, 30 (the documented maximum) and 31 (refused by
+	// HashFromTile) and three heights drawn from 4..28, on small trees, where every tile of such a height is a
+	// partial tile of width <= N; they take part in the honest sweep and in the fault part below
+	hiHs := []int{29, 30, 31, 4 + g.Intn(5), 9 + g.Intn(10), 19 + g.Intn(10)}
+	hiN := 10
+	if thorough {
+		hiN = 24
+	}
+	for _, h := range hiHs {
+		for N := 1; N <= hiN; N++ {
+			cfgs = append(cfgs, cfg{N, h})
+		}
+	}
 	honest := 0
 	for _, c := range cfgs {
 		honest += int(tlog.StoredHashIndex(0, int64(c.n)))
@@ -525,6 +563,10 @@ func genC10(g *Gen, n int) {
 	seqN := budget / 8
 	c10GenSeq(g, seqN, maxN, hs)
 	budget -= seqN
+	// part 1c: uniform logs of up to 2^62 records (util_c10uni.go)
+	uniN := budget / 24 // a read on a tree of 2^61 records is about 250 hash computations in the model: keep these few
+	c10GenUni(g, uniN)
+	budget -= uniN
 	// part 2: faults on tiles that are read
 	other := budget / 5
 	for budget > other {
@@ -568,6 +610,9 @@ func genC10(g *Gen, n int) {
 			if g.Chance(5) {
 				h = 0
 			}
+			if g.Chance(20) {
+				h = 1 + g.Intn(31) // the whole height domain and one above
+			}
 			g.Emit(fmt.Sprintf("tile.tileforindex %d %d", h, c09Index(g.Rand)), true, "tileforindex")
 		case 1:
 			h := 1 + g.Intn(5)
@@ -591,6 +636,9 @@ func genC10(g *Gen, n int) {
 			// hashfromtile on true tile data with valid and invalid (tile, index) combinations
 			N := 1 + g.Intn(60)
 			h := 1 + g.Intn(4)
+			if g.Chance(25) { // any legal height, the boundary heights with weight: the tile is a partial tile of width <= N
+				h = []int{29, 30, 30, 5 + g.Intn(24)}[g.Intn(4)]
+			}
 			l := c10Log(1, N)
 			x := int64(g.Intn(int(tlog.StoredHashIndex(0, int64(N)))))
 			t := tlog.TileForIndex(h, x)
@@ -616,15 +664,19 @@ func genC10(g *Gen, n int) {
 			case 4:
 				x = int64(g.Intn(int(tlog.StoredHashIndex(0, int64(N))) + 5))
 			case 5:
-				t.H = []int{0, 31, t.H + 1}[g.Intn(3)]
+				t.H = []int{0, 31, t.H + 1, 30}[g.Intn(4)]
 			case 6:
 				t.L = []int{-1, 64, 63}[g.Intn(3)]
 			case 7, 8, 9: // a wider version of the same tile (allowed), with the data it would have
 				if wide := tlog.TileForIndex(h, x); wide.W < 1<<uint(h) {
-					for len(hl) < 1<<uint(h) {
+					full := 1 << uint(h)
+					if full > wide.W+8 {
+						full = wide.W + 8 // large heights: a few hashes wider, not the complete tile
+					}
+					for len(hl) < full {
 						hl = append(hl, c09RandHash(g.Rand))
 					}
-					t.W = wide.W + g.Intn(1<<uint(h)-wide.W+1)
+					t.W = wide.W + g.Intn(full-wide.W+1)
 				}
 			case 10: // another index inside the same tile
 				l2, n2 := tlog.SplitStoredHashIndex(x)
@@ -651,6 +703,9 @@ func genC10(g *Gen, n int) {
 // ---- oracle
 
 func c10TrueTile(l *c10LogT, t tlog.Tile) []byte {
+	if l.uni != nil {
+		return l.uni.trueTile(t)
+	}
 	d, err := tlog.ReadTileData(t, l.st)
 	if err != nil {
 		return nil
@@ -662,7 +717,11 @@ func c10TrueTile(l *c10LogT, t tlog.Tile) []byte {
 // and only true tiles saved.
 func c10CheckRead(g *Gen, l *c10LogT, n, h int, idx []int64, fs []c10Fault, seed int) {
 	hs, res, r := c10Read(l, h, idx, fs)
-	c10CheckOutcome(g, l, n, idx, len(fs) == 0, hs, res, r, "", c10Op(n, h, idx, fs, seed))
+	op := c10Op(n, h, idx, fs, seed)
+	if l.uni != nil {
+		op = c10UniOp(l.tree.N, h, idx, fs, seed)
+	}
+	c10CheckOutcome(g, l, n, idx, len(fs) == 0, hs, res, r, "", op)
 }
 
 // c10CheckOutcome is the property for the outcome of ONE ReadHashes call (on a fresh reader or in the middle of a
@@ -691,7 +750,7 @@ func c10CheckOutcome(g *Gen, l *c10LogT, n int, idx []int64, honest bool, hs []t
 			return false
 		}
 		for i, x := range idx {
-			if x < 0 || x >= int64(len(l.st)) || hs[i] != l.st[x] {
+			if want, ok := l.hashAt(x); !ok || hs[i] != want {
 				g.Fail("ReadHashes through tiles returned a hash that is not the true stored hash", fmt.Sprintf("%sindex %d", where, x), ops...)
 				return false
 			}
@@ -771,6 +830,28 @@ func oracleC10(g *Gen, n int) {
 			}
 		}
 	}
+	// (a') the whole height domain. Input class "every legal tile height" (added for the gap r6-C10-a): the heights
+	// above were 1..3 (thorough 1..5, 8), sampled ones at most 8, so the upper part of the documented domain
+	// 1 <= H <= 30, and its boundary H = 30 in particular, never appeared in an actual read; only tile paths had it.
+	// A tile of a large height is huge only when it is complete: on a small tree every tile of height >= 4 is a
+	// partial tile of width <= N. Every height 4..30 on every tree of up to 6 records (up to 12 at the boundary
+	// heights 29 and 30), every single index, honest and with the faults of (a). (Height 31 and above: HashFromTile
+	// refuses the tiles, the property claims nothing; the correspondence run has them.)
+	hiN, edgeN := 6, 12
+	if thorough {
+		hiN, edgeN = 16, 40
+	}
+	for h := 4; h <= 30; h++ {
+		top := hiN
+		if h >= 29 {
+			top = edgeN
+		}
+		for N := 1; N <= top; N++ {
+			exhaustive(N, h, 1+N%3, false)
+		}
+	}
+	// (a'') uniform logs of up to 2^62 records (util_c10uni.go)
+	cases += c10OracleUni(g, n/15)
 	for N := 1; N <= maxN && cases < n; N++ {
 		for _, h := range hs {
 			exhaustive(N, h, 1+N%3, N <= 24)
@@ -792,6 +873,12 @@ func oracleC10(g *Gen, n int) {
 		h := 1 + g.Intn(4)
 		if g.Chance(10) {
 			h = 1 + g.Intn(8)
+		}
+		if g.Chance(5) {
+			h = 1 + g.Intn(30) // any legal height: N < 2^11, so the tiles of a height above 10 are partial
+			if g.Chance(30) {
+				h = 30
+			}
 		}
 		seed := 1 + g.Intn(3)
 		l := c10Log(seed, N)
